@@ -52,8 +52,8 @@ MODES = ("raise", "sticky", "die_before", "die_after")
 
 
 @st.composite
-def st_case(draw, threaded=None):
-    d = draw(c01.st_case(threaded=threaded))
+def st_case(draw, threaded=None, multiprocess=False):
+    d = draw(c01.st_case(threaded=threaded, multiprocess=multiprocess))
     if all(len(r) < 2 for r in d["rows"].values()):
         s0 = sorted(d["rows"])[0]
         d["rows"][s0] = [[0, 1], [2, 3], [4, 6]]
@@ -69,7 +69,7 @@ def st_case(draw, threaded=None):
         else:
             tn["save_when"] = draw(st.integers(2, 3))
     d["stored"] = [t for t in d["stored"] if t != d["target"] and graphs.save_when_of(prov[t], t) > 0]
-    if d["cfg"]["processor"] == "threaded_mailbox":
+    if d["cfg"]["processor"] == "threaded_mailbox" and not multiprocess:
         d["cfg"]["max_workers"] = draw(st.sampled_from([1, 2, 2, 3]))
     return d
 
@@ -186,7 +186,7 @@ def run_case(d, max_indices=0):
 
         # ---- dry run under the counting layer
         run_dir = fresh_copy()
-        with FSFaults(run_dir) as fs:
+        with FSFaults(run_dir) as fs, c01.forked_saver_probe() as probe:
             exc, S = request(d, classes, run_dir, d["policy"])
         if exc is not None:
             raise Violation("dry.raised:" + type(exc).__name__, f"{exc!r} {d}") from exc
@@ -264,6 +264,8 @@ def run_case(d, max_indices=0):
                         raise Violation("retry.temp_dir_of_target_left", f"{tag} {tkey} {d}")
                 shutil.rmtree(run_dir, ignore_errors=True)
         cl.add(d["cfg"]["processor"])
+        if probe["forked"]:
+            cl.add("forked_saver")  # a saver inlined into a (simulated) worker process wrote chunks
         if d["cfg"]["processor"] == "threaded_mailbox" and d["cfg"].get("max_workers", 1) > 1:
             cl.add("pool_saving")
         if L > 80:
@@ -287,4 +289,6 @@ SUBCHECKS = [
     SubCheck("threaded_spread", run_case_spread, strategy=lambda: st_case(threaded=True), quick=32, thorough=1600,
              min_per_shard=1),
     SubCheck("all_indices", run_case, strategy=lambda: st_case(), quick=8, thorough=400, min_per_shard=1),
+    SubCheck("multiprocess_spread", run_case_spread, strategy=lambda: st_case(threaded=True, multiprocess=True),
+             quick=32, thorough=1600, min_per_shard=1, required_classes=("forked_saver",)),
 ]
